@@ -14,6 +14,20 @@ func init() {
 		Explanation: "R08.2 (lockset, flow-sensitive must-hold analysis per function and per constant value of the `synchronized` parameter): cachedDBRound, deltas, accounts, resources, kvStore, creatables, versions, roundTotals, deltasAccum of accountUpdates are read only with accountsMu held (shared or exclusive) and written only with it held exclusively; helpers that rely on the caller's lock are checked at every call site; the only exempt accessor is the replay-time accountUpdatesLedgerEvaluator, which is constructed only in trackerRegistry.replay.",
 		Floor:       map[string]int{"R08.2": 30},
 	})
+	extend("C08", Extension{
+		Run: func(c *Ctx) {
+			ruleLRUFreshness(c, "R08.6", "ledger.lruAccounts.write", "ledger.lruResources.write", "ledger.lruKV.write")
+		},
+		Explanation: "R08.6 (cache freshness, sibling rule over the LRU caches): in lruAccounts/lruResources/lruKV.write an entry already in the cache is overwritten only on the true edge of cached.Before(new) (so a late, older DB row queued by a reader can never replace the row written by a newer commit), and each Before is `receiver.Round < other.Round`.",
+		Floor:       map[string]int{"R08.6": 6},
+	})
+	extend("C13", Extension{
+		Run: func(c *Ctx) {
+			ruleLRUFreshness(c, "R13.5", "ledger.lruOnlineAccounts.write")
+		},
+		Explanation: "R13.5: lruOnlineAccounts.write replaces a cached row only when cached.Before(new) (UpdRound order).",
+		Floor:       map[string]int{"R13.5": 2},
+	})
 	extend("C13", Extension{
 		Run:         func(c *Ctx) { lockOnlineAccounts(c, "R13.4") },
 		Explanation: "R13.4 (lockset): cachedDBRoundOnline, deltas, accounts, onlineRoundParamsData, deltasAccum of onlineAccounts are touched only under accountsMu (writes exclusively).",
